@@ -7,3 +7,12 @@ import Brax.Gen.Math
 import Brax.Gen.MathDriver
 import Brax.Lemmas.Real
 import Brax.Props.C09
+import Brax.Model.Sys
+import Brax.Model.Kinematics
+import Brax.Spec.MjKinematics
+import Brax.Lemmas.Algebra
+import Brax.Lemmas.Norm
+import Brax.Lemmas.Scan
+import Brax.Lemmas.KinPos
+import Brax.Lemmas.KinVel
+import Brax.Props.C01
